@@ -41,11 +41,12 @@ def _with_md(b, desc):
     return b
 
 
-def build_live(desc, line):
+def build_live(desc, line, same_line=False):
     from bibtexparser import model as M
     t = desc[0]
     if t == "entry":
-        fields = [M.Field(key=k, value=build_val(v), start_line=line + 1 + i) for i, (k, v) in enumerate(desc[3])]
+        # same_line: all fields of the entry share one start_line, so that fields with equal key and value compare equal
+        fields = [M.Field(key=k, value=build_val(v), start_line=line + 1 + (0 if same_line else i)) for i, (k, v) in enumerate(desc[3])]
         return _with_md(M.Entry(entry_type=desc[1], key=desc[2], fields=fields, start_line=line, raw=desc[4]), desc)
     if t == "string":
         return _with_md(M.String(key=desc[1], value=build_val(desc[2]), start_line=line, raw=desc[3]), desc)
@@ -58,7 +59,7 @@ def build_live(desc, line):
     raise ValueError("bad live description %r" % (desc,))
 
 
-def build_block(desc, line=0):
+def build_block(desc, line=0, same_line=False):
     from bibtexparser import model as M
     from bibtexparser.exceptions import BlockAbortedException
     from bibtexparser.middlewares.names import InvalidNameError
@@ -67,20 +68,20 @@ def build_block(desc, line=0):
         return M.ParsingFailedBlock(error=BlockAbortedException(abort_reason="Unexpectedly reached end of file"),
                                     start_line=line, raw=desc[1])
     if t == "dupfield":
-        e = build_live(desc[1], line)
+        e = build_live(desc[1], line, same_line)
         keys = [f.key for f in e.fields]
         return M.DuplicateFieldKeyBlock(duplicate_keys={k for k in keys if keys.count(k) > 1}, entry=e)
     if t == "mwerror":
-        return M.MiddlewareErrorBlock(block=build_live(desc[1], line), error=InvalidNameError("?", "?"))
+        return M.MiddlewareErrorBlock(block=build_live(desc[1], line, same_line), error=InvalidNameError("?", "?"))
     if t == "other":
         return NotABlock()
-    return build_live(desc, line)
+    return build_live(desc, line, same_line)
 
 
 def build_blocks(descs, same_line=False):
     """same_line: every block gets start_line 0, so that equal descriptions give blocks that compare equal
     (`Block.__eq__` is structural) - a library may hold the same comment or preamble several times"""
-    return [build_block(d, 0 if same_line else 3 * i) for i, d in enumerate(descs)]
+    return [build_block(d, 0 if same_line else 3 * i, same_line) for i, d in enumerate(descs)]
 
 
 def build_library(descs, same_line=False):
